@@ -34,6 +34,12 @@ def elemI64 : Elem (Val .i64) where
     if IntTy.minInt .i64 ≤ i ∧ i ≤ IntTy.maxInt .i64 then some (ofInt .i64 i) else none
   render v := toString (toInt .i64 v)
 
+def elemPlain (t : IntTy) : Elem (Val t) where
+  arith := arithPlain t
+  parse s := s.toInt?.bind fun i =>
+    if IntTy.minInt t ≤ i ∧ i ≤ IntTy.maxInt t then some (ofInt t i) else none
+  render v := toString (toInt t v)
+
 def elemWrappingU8 : Elem (Val .u8) where
   arith := arithWrapping .u8
   parse s := s.toNat?.bind fun n => if n < 256 then some (ofInt .u8 n) else none
@@ -85,6 +91,16 @@ def answerAt {α : Type} (E : Elem α) (cmd : String) (args : List String) : Str
     match kind? k, BinOp.ofName? op, p a, p r with
     | some va, some op, some a, some r => showRec E (recordScalar E.arith op va a r)
     | _, _, _, _ => "bad-op"
+  | "recsw", [k, op, a, lhs] =>
+    -- `lhs op record` through SwappedOperations: the constant-left case of `recordBin`
+    match kind? k, BinOp.ofName? op, p a, p lhs with
+    | some va, some op, some a, some lhs =>
+      if op == .sub || op == .div then
+        showRec E (do
+          let r ← recordBin E.arith op false va lhs a
+          pure ⟨r.number, r.hasHistory, r.index, r.dy, none⟩)
+      else "bad-op"
+    | _, _, _, _ => "bad-op"
   | "recneg", [k, a] =>
     match kind? k, p a with
     | some va, some a => showRec E (recordNeg E.arith va a)
@@ -99,6 +115,8 @@ def answer (cmd : String) (toks : List String) : String :=
       (if elem == "f64" || elem == "f32" || elem == "Fp" then "agree" else "bad-op")
     else match elem with
     | "i64" => answerAt elemI64 cmd args
+    | "i32" => answerAt (elemPlain .i32) cmd args
+    | "i8" => answerAt (elemPlain .i8) cmd args
     | "wrapping_u8" => answerAt elemWrappingU8 cmd args
     | "Fp" => answerAt elemFp cmd args
     | "f64" => "agree"
